@@ -948,8 +948,6 @@ class RangeCriterion(Criterion):
     def is_aggregate(self) -> bool | None:  # type:ignore[override]
         return self.term.is_aggregate
 
-
-class BetweenCriterion(RangeCriterion):
     @builder
     def replace_table(  # type:ignore[return]
         self, current_table: "Table" | None, new_table: "Table" | None
@@ -965,7 +963,11 @@ class BetweenCriterion(RangeCriterion):
             A copy of the criterion with the tables replaced.
         """
         self.term = self.term.replace_table(current_table, new_table)
+        self.start = self.start.replace_table(current_table, new_table)
+        self.end = self.end.replace_table(current_table, new_table)
 
+
+class BetweenCriterion(RangeCriterion):
     def get_sql(self, ctx: SqlContext) -> str:
         # FIXME escape
         sql = "{term} BETWEEN {start} AND {end}".format(
